@@ -402,6 +402,7 @@ def run_check(cid, tier, seed, workers=None, n_override=None, sigs_out=None):
     exit_code = 0
     reported = []
     known_hit = []
+    t_min0 = time.time()
     for sig, items in sorted(by_sig.items()):
         k = match_known(known, cid, list(sig))
         if k:
@@ -413,7 +414,9 @@ def run_check(cid, tier, seed, workers=None, n_override=None, sigs_out=None):
             exit_code = 1
             continue
         index, v, case = items[0]
-        small, evals = minimise(chk, case, list(sig))
+        # minimisation is bounded per signature and per run (later signatures get what is left, at least 10 s)
+        left = max(10.0, 240.0 - (time.time() - t_min0))
+        small, evals = minimise(chk, case, list(sig), deadline_s=min(90.0, left))
         viols = chk.evaluate(small, Ctx())
         hit = [x for x in viols if x.sig == list(sig)]
         detail = hit[0].detail if hit else v["detail"]
